@@ -475,7 +475,13 @@ class Harness:
         # scalars and compared; return values come from a read-only table of symbolic values indexed by the
         # running call number, so reference and real side see the same host answers.
         w('static uint64_t H_ret[MAXC]; static uint32_t obs_k; static int obs_set; static HCall obs;')
-        w('static uint64_t R_host(RState* S, int id, int n, uint64_t a0, uint64_t a1, uint64_t a2, uint64_t a3) { uint64_t r;')
+        # the same (module, name) may be imported more than once: every such import denotes the same host function, so
+        # the observed identity is the index of the FIRST import with that module and name
+        imf_all = m.imported('func')
+        canon = [min(j for j in range(len(imf_all)) if (imf_all[j].module, imf_all[j].name) == (im.module, im.name)) for im in imf_all]
+        self.host_canon = canon
+        w('static const int host_canon[%d] = {%s};' % (max(1, len(canon)), ', '.join(str(c) for c in canon) or '0'))
+        w('static uint64_t R_host(RState* S, int id, int n, uint64_t a0, uint64_t a1, uint64_t a2, uint64_t a3) { uint64_t r; id = host_canon[id];')
         w('  if (R_ncalls >= MAXC) { R_stop = 1; return 0; }')
         w('  if ((uint32_t)R_ncalls == obs_k) { obs_set = 1; obs.id = id; obs.inst = S->id; obs.n = n; obs.a[0] = a0; obs.a[1] = a1; obs.a[2] = a2; obs.a[3] = a3; }')
         w('  r = H_ret[R_ncalls]; R_ncalls++; return r; }')
@@ -588,6 +594,8 @@ class Harness:
         w('}')
         # host imports (real side)
         for fi, im in enumerate(m.imported('func')):
+            if self.host_canon[fi] != fi:
+                continue
             ps, rs = im.desc
             ret = TYPE_C[rs[0]] if rs else 'void'
             params = ''.join(', %s p%d' % (TYPE_C[t], j) for j, t in enumerate(ps))
